@@ -26,10 +26,14 @@ const (
 	// digits and only the fourth is not (the book requires just one of the
 	// first four not to be a hex digit).
 	BinaryHexStart
+	// BinaryCtrlStart: binary eexec whose first cipher byte is a control
+	// character that is NOT one of the four bytes the book excludes (blank,
+	// tab, CR, LF): form feed, then NUL, a hex digit and 0x1f.
+	BinaryCtrlStart
 	NumContainers
 )
 
-var containerNames = []string{"pfa", "binary", "pfb", "noeexec", "pfbsplit", "binary-hexstart"}
+var containerNames = []string{"pfa", "binary", "pfb", "noeexec", "pfbsplit", "binary-hexstart", "binary-ctrlstart"}
 
 // ContainerName names a container format.
 func ContainerName(c int) string { return containerNames[c] }
@@ -274,7 +278,11 @@ func binaryLead() [4]byte {
 // hexStartLead finds lead bytes whose cipher bytes are 'a', '7', 'F' and a
 // byte that is neither a hex digit nor white space.
 func hexStartLead() [4]byte {
-	want := [4]byte{'a', '7', 'F', 0x9c}
+	return leadFor([4]byte{'a', '7', 'F', 0x9c})
+}
+
+// leadFor finds the four plaintext lead bytes that encrypt to want.
+func leadFor(want [4]byte) [4]byte {
 	var lead [4]byte
 	r := uint16(55665)
 	for i, c := range want {
@@ -504,11 +512,14 @@ func Generate(m *t1model.Font, opt *Options) ([]byte, error) {
 			out.WriteString(eol)
 		}
 		out.Write(trailer.buf.Bytes())
-	case Binary, BinaryHexStart:
+	case Binary, BinaryHexStart, BinaryCtrlStart:
 		out.Write(clear.buf.Bytes())
 		lead := binaryLead()
 		if opt.Container == BinaryHexStart {
 			lead = hexStartLead()
+		}
+		if opt.Container == BinaryCtrlStart {
+			lead = leadFor([4]byte{0x0c, 0x00, 'a', 0x1f})
 		}
 		cipher := eexecEncrypt(priv.buf.Bytes(), lead)
 		if opt.Container == BinaryHexStart && string(cipher[:3]) != "a7F" {
